@@ -1,6 +1,7 @@
 package curl
 
 import (
+	"errors"
 	"crypto/sha256"
 	"math/rand"
 	"os"
@@ -191,12 +192,12 @@ func isFresh(c *Curl) bool {
 }
 
 func errName(err error) string {
-	switch err {
-	case nil:
+	switch {
+	case err == nil:
 		return ""
-	case consts.ErrInvalidBatchSize:
+	case errors.Is(err, consts.ErrInvalidBatchSize):
 		return "batch"
-	case consts.ErrInvalidTritsLength, consts.ErrInvalidSqueezeLength:
+	case errors.Is(err, consts.ErrInvalidTritsLength), errors.Is(err, consts.ErrInvalidSqueezeLength):
 		return "length"
 	}
 	return "other:" + err.Error()
